@@ -1018,6 +1018,7 @@ fn scenario_buffers(args: &Args, report: &mut Report) {
 }
 
 fn main() {
+    vcore::init_logger_from_env();
     let args = Args::parse();
     let scenario = args.str("scenario", "contract");
     let mut report = Report::new(
